@@ -101,4 +101,43 @@ def manyInstrDiags (toks : List Token) (g : Segment) : List Diag :=
 def manyInstrDiagsRun (toks : List Token) (trace : List Segment) : List Diag :=
   trace.flatMap (manyInstrDiags toks)
 
+/-! `CheckCommentLineLen` (`depends_on = ("IsComment",)`):
+
+    i = 0
+    while not context.check_token(i, ["COMMENT", "MULT_COMMENT"]): i += 1
+    token = context.peek_token(i); index = token.pos[1]
+    if token.type == "MULT_COMMENT":
+        lines = token.value.split("\n"); lines[0] = " " * (index - 1) + lines[0]
+        for lineno, line in enumerate(lines, start=token.pos[0]):
+            if len(line) > 80: token.pos = (lineno, 1); context.new_error("LINE_TOO_LONG", token)
+    elif index + len(token.value) > 81: context.new_error("LINE_TOO_LONG", token)
+-/
+
+/-- `str.split("\n")` -/
+def splitNl : List Char → List (List Char)
+  | [] => [[]]
+  | c :: cs =>
+    match splitNl cs with
+    | [] => [[]]           -- unreachable: the result is never empty
+    | l :: ls => if c == '\n' then [] :: l :: ls else (c :: l) :: ls
+
+/-- `CheckCommentLineLen.run` for one statement: the first comment token from the statement's start on (the scan of the
+real code is not bounded by the statement; after `IsComment` the statement holds one) -/
+def commentLenDiags (toks : List Token) (g : Segment) : List Diag :=
+  if runsAfter "CheckCommentLineLen" g.rule then
+    match (toks.drop g.start).find? (fun t => t.type == "COMMENT" || t.type == "MULT_COMMENT") with
+    | some t =>
+      match t.value with
+      | some v =>
+        if t.type == "MULT_COMMENT" then
+          (blockCommentTooLong t.col ((splitNl v.toList).map List.length)).map
+            (fun i => mkDiag "LINE_TOO_LONG" .error [⟨t.line + i, 1, some v.length, none⟩])
+        else if lineCommentTooLong t.col v.length then [tokDiag "LINE_TOO_LONG" t] else []
+      | none => []
+    | none => []
+  else []
+
+def commentLenDiagsRun (toks : List Token) (trace : List Segment) : List Diag :=
+  trace.flatMap (commentLenDiags toks)
+
 end Norm
